@@ -115,7 +115,14 @@ def mutate(p, rng):
             elif kind == "export-empty-map":
                 projcheck.default_context(q).setdefault("rules", [{"name": "CC", "in": "c", "out": "o", "cmd": "cc"}])[0]["export"] = [{}]
             elif kind == "var-cycle":
-                m.setdefault("env", {}).setdefault(rng.choice(["local", "export", "global"]), {})["CFLAGS"] = "${CFLAGS}"
+                # a self reference, possibly closed only after references to names defined nowhere (which the lenient policies skip)
+                m.setdefault("env", {}).setdefault(rng.choice(["local", "export", "global"]), {})["CFLAGS"] = rng.choice(
+                    ["${CFLAGS}", "${CFLAGS}", "${NOWHERE_A} -Os ${CFLAGS}", "${NOWHERE_A} ${NOWHERE_B} ${CFLAGS}", ["${NOWHERE_A}", "x", "${CFLAGS}"]])
+                if rng.random() < 0.3:
+                    dc = projcheck.default_context(q).setdefault("env", {})
+                    if isinstance(dc, dict):
+                        dc["DEFS"] = "${NOWHERE_A} ${LIBS}"
+                        dc["LIBS"] = "${NOWHERE_B} ${NOWHERE_A} ${DEFS}"
                 if rng.random() < 0.5:
                     projcheck.default_context(q).setdefault("env", {})["outfile"] = "${outfile}"
     elif kind == "nameless-dir":
@@ -146,7 +153,7 @@ def mutate(p, rng):
         files["vendor/lib/" + rng.choice(["laze-lib.yml", "laze.yml", "other.yml"])] = [{"modules": [{"name": "implib", "sources": ["implib.c"]}]}]
         root["imports"] = list(root.get("imports") or []) + [imp]
     elif kind == "defaults-ctxlist":
-        files["laze-project.yml"][0]["defaults"] = {"module": {"context": ["default", "c1"]}}
+        files["laze-project.yml"][0]["defaults"] = {rng.choice(["module", "app"]): {"context": rng.choice([["default", "c1"], [], ["default"], ["nosuch"], [""]])}}
     elif kind == "cli":
         if rng.random() < 0.25:
             # names with blanks / empty names in --builders / --apps (`-b "b0, b1"`): unknown names, reported as such
